@@ -50,7 +50,7 @@ def describe(v):
             d.update(**num_desc(Fraction(v), negzero=(v == 0 and math.copysign(1, v) < 0)))
     elif isinstance(v, str):
         d.update(kind="str", text=[ord(c) for c in v[:64]])
-        if len(v) <= 400 and INT_RE.match(v):
+        if len(v) <= 5000 and INT_RE.match(v):
             d.update(numeric="int", **num_desc(Fraction(int(v))))
         elif len(v) <= 60 and FLOAT_RE.match(v):
             try:
@@ -153,8 +153,6 @@ def run(tier: str, rd):
     for tname, t in scalars:
         for v in vals:
             rec, out = record(tname, [], v, t.serialize, t.parse_value)
-            if rec["err"] and rec["_errcls"] not in ("GraphQLError",):
-                vd.violation("serialize-raises-non-graphql-error", {"type": tname, "value": repr(v)[:80]}, rec["_errcls"], {"clause": "serialize-raises-non-graphql-error", "exc": rec["_errcls"]})
             rec["_meta"] = {"type": tname, "value": repr(v)[:80], "python_type": type(v).__name__, "route": "direct", "out": repr(out)[:80]}
             recs.append(rec)
     for ename, et, mapping in enum_types(rng):
@@ -213,6 +211,9 @@ def run(tier: str, rd):
     for o in r.json_lines():
         rec = recs[o["viol"] - 1]
         hits[o["clause"]] = hits.get(o["clause"], 0) + 1
+        if o["clause"].startswith("drift"):
+            vd.note_drift(o["clause"], rec["_meta"])
+            continue
         vd.violation(o["clause"], rec["_meta"], {"in": rec["in"]["kind"], "out": rec["out"], "back": rec["back"] if not rec["backErr"] else "rejected"},
                      {"clause": o["clause"], "type": rec["type"], "in_kind": rec["in"]["kind"], "route": rec["_meta"]["route"]})
     ev.traces += len(recs)
